@@ -185,90 +185,99 @@ func runUploads(c *gen.Ctx, r *gen.Rand, meta *gen.Meta) (int, error) {
 		maxMem, maxUp int64
 	}{{"in memory", 1 << 20, 1 << 22}, {"spilled to disk", 64, 1 << 22}, {"over the upload limit", 64, 2000}} {
 		srv := mk(mode.maxMem, mode.maxUp)
-		for _, rq := range reqs {
-			n++
-			before := recovers
-			execsBefore := execs
-			delivered = nil
-			hr := httptest.NewRequest(http.MethodPost, "/query", bytes.NewReader(rq.body))
-			hr.Header.Set("Content-Type", "multipart/form-data; boundary="+bd)
-			w := httptest.NewRecorder()
-			srv.ServeHTTP(w, hr)
-			left, _ := filepath.Glob(filepath.Join(tmp, "*"))
-			var problems []string
-			if recovers != before {
-				problems = append(problems, "the recover hook ran (gqlgen's own code panicked)")
-			}
-			if len(left) > 0 {
-				var names []string
-				for _, l := range left {
-					names = append(names, filepath.Base(l))
-					_ = os.Remove(l)
+		for _, rq0 := range reqs {
+			for _, chunked := range []bool{false, true} {
+				rq := rq0
+				n++
+				before := recovers
+				execsBefore := execs
+				delivered = nil
+				var bodyReader io.Reader = bytes.NewReader(rq.body)
+				if chunked {
+					// no Content-Length (a chunked request): the size is only known while reading
+					bodyReader = struct{ io.Reader }{bytes.NewReader(rq.body)}
+					rq.name += " (sent without Content-Length)"
 				}
-				problems = append(problems, fmt.Sprintf("temporary files left behind: %v", names))
-			}
-			want := rq.want
-			if int64(len(rq.body)) > mode.maxUp {
-				want = "client"
-			}
-			var resp struct {
-				Data   json.RawMessage   `json:"data"`
-				Errors []json.RawMessage `json:"errors"`
-			}
-			jerr := json.Unmarshal(w.Body.Bytes(), &resp)
-			switch {
-			case jerr != nil:
-				problems = append(problems, fmt.Sprintf("the answer (status %d) is not a JSON response: %q", w.Code, w.Body.String()))
-			case want == "ok":
-				if w.Code != 200 || len(resp.Errors) > 0 || execs != execsBefore+1 {
-					problems = append(problems, fmt.Sprintf("a well-formed upload was answered %d: %s", w.Code, strings.TrimSpace(w.Body.String())))
-				} else if len(delivered) != len(rq.files) {
-					problems = append(problems, fmt.Sprintf("%d uploads reached the variables, %d were mapped", len(delivered), len(rq.files)))
+				hr := httptest.NewRequest(http.MethodPost, "/query", bodyReader)
+				hr.Header.Set("Content-Type", "multipart/form-data; boundary="+bd)
+				w := httptest.NewRecorder()
+				srv.ServeHTTP(w, hr)
+				left, _ := filepath.Glob(filepath.Join(tmp, "*"))
+				var problems []string
+				if recovers != before {
+					problems = append(problems, "the recover hook ran (gqlgen's own code panicked)")
+				}
+				if len(left) > 0 {
+					var names []string
+					for _, l := range left {
+						names = append(names, filepath.Base(l))
+						_ = os.Remove(l)
+					}
+					problems = append(problems, fmt.Sprintf("temporary files left behind: %v", names))
+				}
+				want := rq.want
+				if int64(len(rq.body)) > mode.maxUp {
+					want = "client"
+				}
+				var resp struct {
+					Data   json.RawMessage   `json:"data"`
+					Errors []json.RawMessage `json:"errors"`
+				}
+				jerr := json.Unmarshal(w.Body.Bytes(), &resp)
+				switch {
+				case jerr != nil:
+					problems = append(problems, fmt.Sprintf("the answer (status %d) is not a JSON response: %q", w.Code, w.Body.String()))
+				case want == "ok":
+					if w.Code != 200 || len(resp.Errors) > 0 || execs != execsBefore+1 {
+						problems = append(problems, fmt.Sprintf("a well-formed upload was answered %d: %s", w.Code, strings.TrimSpace(w.Body.String())))
+					} else if len(delivered) != len(rq.files) {
+						problems = append(problems, fmt.Sprintf("%d uploads reached the variables, %d were mapped", len(delivered), len(rq.files)))
+					} else {
+						for i, d := range delivered {
+							if d.content != rq.files[i] || d.size != int64(len(rq.files[i])) || d.ctype != "application/octet-stream" || !strings.HasPrefix(d.name, "f") || !strings.HasSuffix(d.name, ".txt") {
+								problems = append(problems, fmt.Sprintf("mapped path %d received name %q type %q size %d and %d bytes (equal to the part: %v); the part had %d bytes", i, d.name, d.ctype, d.size, len(d.content), d.content == rq.files[i], len(rq.files[i])))
+							}
+						}
+						if len(delivered) > 0 && delivered[0].again != rq.files[0] {
+							problems = append(problems, "after Seek(0) the first reader did not deliver the file again")
+						}
+						for i := 1; i < len(delivered); i++ {
+							if delivered[i].again != "" {
+								problems = append(problems, fmt.Sprintf("mapped path %d: %s", i, delivered[i].again))
+							}
+						}
+					}
+				case want == "client":
+					if w.Code >= 500 || len(resp.Errors) == 0 || execs != execsBefore {
+						problems = append(problems, fmt.Sprintf("a malformed or oversized upload was answered %d (executed: %v): %s", w.Code, execs != execsBefore, strings.TrimSpace(w.Body.String())))
+					}
+				}
+				// the same request as a case for the model of the handler
+				form, table := classifyForm(rq.body, bd, mode.maxMem, mode.maxUp, chunked)
+				var fids []string
+				for _, d := range delivered {
+					fid := 0
+					for i, t := range table {
+						if t.content == d.content && t.name == d.name {
+							fid = i + 1
+						}
+					}
+					fids = append(fids, fmt.Sprintf("%d%%nat", fid))
+				}
+				acc := jerr == nil && w.Code == 200 && len(resp.Errors) == 0 && execs == execsBefore+1
+				fcf.Add(fmt.Sprintf("{| fc_form := %s; fc_accepted := %s; fc_leftover := %d; fc_delivered := %s; fc_recovered := %s |}",
+					form, gen.Bool(acc), len(left), gen.List(fids), gen.Bool(recovers != before)))
+				if acc {
+					formStats[mode.name+": accepted"]++
 				} else {
-					for i, d := range delivered {
-						if d.content != rq.files[i] || d.size != int64(len(rq.files[i])) || d.ctype != "application/octet-stream" || !strings.HasPrefix(d.name, "f") || !strings.HasSuffix(d.name, ".txt") {
-							problems = append(problems, fmt.Sprintf("mapped path %d received name %q type %q size %d and %d bytes (equal to the part: %v); the part had %d bytes", i, d.name, d.ctype, d.size, len(d.content), d.content == rq.files[i], len(rq.files[i])))
-						}
-					}
-					if len(delivered) > 0 && delivered[0].again != rq.files[0] {
-						problems = append(problems, "after Seek(0) the first reader did not deliver the file again")
-					}
-					for i := 1; i < len(delivered); i++ {
-						if delivered[i].again != "" {
-							problems = append(problems, fmt.Sprintf("mapped path %d: %s", i, delivered[i].again))
-						}
-					}
+					formStats[mode.name+": refused"]++
 				}
-			case want == "client":
-				if w.Code >= 500 || len(resp.Errors) == 0 || execs != execsBefore {
-					problems = append(problems, fmt.Sprintf("a malformed or oversized upload was answered %d (executed: %v): %s", w.Code, execs != execsBefore, strings.TrimSpace(w.Body.String())))
+				fdescr = append(fdescr, map[string]any{"mode": mode.name, "request": rq.name, "without_content_length": chunked, "status": w.Code, "accepted": acc, "left_over_files": len(left), "form": form})
+				if len(problems) > 0 {
+					meta.Direct = append(meta.Direct, gen.DirectFinding{Signature: "multipart-upload-" + strings.ReplaceAll(mode.name, " ", "-"),
+						What:   rq.name + " (" + mode.name + "): " + strings.Join(problems, "; "),
+						Replay: map[string]any{"mode": mode.name, "max_memory": mode.maxMem, "max_upload_size": mode.maxUp, "request": rq.name, "body": string(rq.body[:min(len(rq.body), 700)])}})
 				}
-			}
-			// the same request as a case for the model of the handler
-			form, table := classifyForm(rq.body, bd, mode.maxMem, mode.maxUp)
-			var fids []string
-			for _, d := range delivered {
-				fid := 0
-				for i, t := range table {
-					if t.content == d.content && t.name == d.name {
-						fid = i + 1
-					}
-				}
-				fids = append(fids, fmt.Sprintf("%d%%nat", fid))
-			}
-			acc := jerr == nil && w.Code == 200 && len(resp.Errors) == 0 && execs == execsBefore+1
-			fcf.Add(fmt.Sprintf("{| fc_form := %s; fc_accepted := %s; fc_leftover := %d; fc_delivered := %s; fc_recovered := %s |}",
-				form, gen.Bool(acc), len(left), gen.List(fids), gen.Bool(recovers != before)))
-			if acc {
-				formStats[mode.name+": accepted"]++
-			} else {
-				formStats[mode.name+": refused"]++
-			}
-			fdescr = append(fdescr, map[string]any{"mode": mode.name, "request": rq.name, "status": w.Code, "accepted": acc, "left_over_files": len(left), "form": form})
-			if len(problems) > 0 {
-				meta.Direct = append(meta.Direct, gen.DirectFinding{Signature: "multipart-upload-" + strings.ReplaceAll(mode.name, " ", "-"),
-					What:   rq.name + " (" + mode.name + "): " + strings.Join(problems, "; "),
-					Replay: map[string]any{"mode": mode.name, "max_memory": mode.maxMem, "max_upload_size": mode.maxUp, "request": rq.name, "body": string(rq.body[:min(len(rq.body), 700)])}})
 			}
 		}
 		// the server keeps serving
@@ -294,13 +303,20 @@ type filePart struct{ name, ctype, content string }
 
 // classifyForm reads the request body the way mime/multipart presents it and renders it as the model's form:
 // size gates, operations variables, map, and the file parts as complete / cut off / unreadable.
-func classifyForm(body []byte, boundary string, maxMem, maxUp int64) (string, []filePart) {
+func classifyForm(body []byte, boundary string, maxMem, maxUp int64, chunked bool) (string, []filePart) {
 	over := int64(len(body)) > maxUp
 	spill := !(int64(len(body)) < maxMem)
+	var src io.Reader = bytes.NewReader(body)
+	if chunked {
+		// Content-Length is -1: no up-front size verdict, everything is read in memory, and the size limit is what
+		// http.MaxBytesReader enforces while the parts are read
+		over, spill = false, false
+		src = http.MaxBytesReader(nil, io.NopCloser(bytes.NewReader(body)), maxUp)
+	}
 	ops, mp := "None", "None"
 	var parts []string
 	var table []filePart
-	mr := multipart.NewReader(bytes.NewReader(body), boundary)
+	mr := multipart.NewReader(src, boundary)
 	func() {
 		p, err := mr.NextPart()
 		if err != nil || p.FormName() != "operations" {
